@@ -97,6 +97,22 @@ def check(ctx):
             ctx.ob("EFFECT.fresh-token.callers", c, f"{rel}: SerializableLock() -- a fresh token per lock", ok, "" if ok else f"`{unparse(c)}` derives the token from a name: every lock created this way with the same name is one and the same mutex", nontrivial=not ok)
     ctx.count("serializable_lock_constructions", n_ctor)
     ctx.floor("serializable_lock_constructions", 3)
+    # ---------------- the getter wrappers hand the lock on
+    ac = ctx.model.module("dask/array/core.py")
+    for gname in ("getter_nofancy", "getter_inline"):
+        gf_ = ac.func(gname)
+        cs = [c for c in calls(gf_, "getter")]
+        ok = len(cs) == 1 and kwarg(cs[0], "lock") is not None and eqv(kwarg(cs[0], "lock"), "lock")
+        ctx.ob("DELEG.getter.lock", gf_, f"{gname} calls getter(..., lock=lock)", ok, "" if ok else "the lock given to from_array(..., fancy=False) is never acquired: chunk reads overlap each other and whoever holds the lock")
+    # ---------------- load_store_chunk touches the target only while it holds the lock
+    lsc = ac.func("load_store_chunk")
+    trys = [t for t in ast.walk(lsc) if isinstance(t, ast.Try) and t.finalbody and any("lock.release()" in unparse(s_) for s_ in t.finalbody)]
+    ok = len(trys) == 1
+    if ok:
+        inside = {id(n) for n in ast.walk(trys[0])}
+        touches = [n for n in ast.walk(lsc) if isinstance(n, ast.Subscript) and isinstance(n.value, ast.Name) and n.value.id == "out"]
+        ok = bool(touches) and all(id(n) in inside for n in touches) and bool(find("lock.acquire()", lsc))
+    ctx.ob("PAIR.store-chunk.under-lock", lsc, "every out[index] access (write and read-back) of load_store_chunk lies inside the try whose finally releases the lock", ok, "" if ok else "the read-back of return_stored happens after lock.release(): the target is read while another holder of the lock may be writing it")
 
 
 VARIANTS = [
